@@ -171,7 +171,7 @@ func runC07(env *Env, s Scenario) {
 	env.Context = sr.Summary
 	env.Res.Shape = sessionShape(sc) + fmt.Sprintf(" holds=%d", len(sc.Holds))
 	env.Res.Nontrivial = true
-	for k, v := range sr.Tr.FaultFired {
+	for k, v := range sr.Tr.Faults() {
 		env.Fault(k, v)
 	}
 	env.Fault("close-"+sc.F.CloseMode, 1)
@@ -204,7 +204,7 @@ func runC07(env *Env, s Scenario) {
 			env.Probe("second-close")
 		}
 	}
-	if nclose > 0 && sr.Tr.CloseCalls == 0 {
+	if nclose > 0 && sr.Tr.CloseCount() == 0 {
 		env.Fail("transport-not-closed", "", "Close returned but the transport's Close was never called")
 	}
 	if sr.Spawned != nil {
